@@ -323,16 +323,17 @@ theorem mul_consts_post_lt (ins : List Nat) (hin : EnvIn ins IfmaField.pre_mul_c
   obtain ⟨outs, h1, h2, h3⟩ := mul_consts_safe ins hin
   exact ⟨outs, h1, h2, EnvIn_of_itvsLe h3 (by decide +kernel)⟩
 
-/-- `diff_sum` of a vector `≤ 16p` lane-wise has limbs `< 2^56` -/
+/-- `diff_sum` of a vector `≤ 32p` lane-wise has limbs `< 2^57` -/
 theorem diff_sum_post_lt (ins : List Nat) (hin : EnvIn ins IfmaField.pre_diff_sum) :
     ∃ outs, Dalek.Gen.IfmaField.diff_sum.evalC ins = some outs ∧ Dalek.Gen.IfmaField.diff_sum.evalW ins = outs ∧
-      EnvIn outs (rep 20 (ub (2 ^ 56 - 1))) := by
+      EnvIn outs (rep 20 (ub (2 ^ 57 - 1))) := by
   obtain ⟨outs, h1, h2, h3⟩ := diff_sum_safe ins hin
   exact ⟨outs, h1, h2, EnvIn_of_itvsLe h3 (by decide +kernel)⟩
 
 /-- reduced vectors are admissible everywhere: as operands of `mul`, `square`, `mul_consts`, `neg`, and (being
-`≤ 16p` lane-wise) of `negate_lazy` / `diff_sum`; a product (`< 2^56`) is NOT `≤ 16p` lane-wise (`16p`-limbs are
-`< 2^55`), so it must be reduced before `negate_lazy` / `diff_sum` -/
+`≤ 32p` lane-wise) of `negate_lazy` / `diff_sum`.  The ROUND bound `< 2^56` of `mul_post_lt` is not inside the contract
+of `negate_lazy` (the limbs of `32p` are `2^56 − 608`, `2^56 − 32`); the ANALYSED post-condition of a product is:
+see `mul_post_le32p`. -/
 theorem reduced_admissible :
     itvsLe IfmaField.reduced IfmaField.pre_negate_lazy = true ∧ itvsLe IfmaField.reduced IfmaField.pre_diff_sum = true ∧
     itvsLe (rep 20 (ub (2 ^ 51 + 2 ^ 18 - 1))) IfmaField.reduced = true ∧
@@ -340,11 +341,73 @@ theorem reduced_admissible :
 
 /-- the multiplication never wraps a lane, whatever the inputs (the 52-bit multiplier masks them); the contract
 `limbs < 2^52` is needed for the VALUE (`Dalek.Props.C01.Ifma.mul_spec`), not for safety.  `negate_lazy` needs its
-contract: lane 0 equal to `16 (2^51 − 19) + 1` wraps. -/
+contract: lane 0 equal to `32 (2^51 − 19) + 1` wraps. -/
 theorem headroom :
     (Dalek.Gen.IfmaField.mul.norm (rep 40 (ub (2 ^ 64 - 1)))).isSome = true ∧
     (Dalek.Gen.IfmaField.square.norm (rep 20 (ub (2 ^ 64 - 1)))).isSome = true ∧
-    Dalek.Gen.IfmaField.negate_lazy.evalC ((16 * (2 ^ 51 - 19) + 1) :: List.replicate 19 0) = none := by
+    Dalek.Gen.IfmaField.negate_lazy.evalC ((32 * (2 ^ 51 - 19) + 1) :: List.replicate 19 0) = none := by
+  decide +kernel
+
+/-! ## unreduced products are fed to `negate_lazy` / `diff_sum` (the point formulas do `(a*b).negate_lazy()`) -/
+
+/-- The analysed post-condition of `&x * &y` for reduced operands (all limbs `< 2^52`: the loose contract
+`reduced ++ reduced`) is inside the contracts of `negate_lazy` and `diff_sum` (lane `≤` lane of `32p`): a product
+may be negated / `diff_sum`med without an intermediate reduction. -/
+theorem mul_post_le32p :
+    itvsLe Dalek.Gen.Norm.IfmaField.mul_post IfmaField.pre_negate_lazy = true ∧
+    itvsLe Dalek.Gen.Norm.IfmaField.mul_post IfmaField.pre_diff_sum = true := by decide +kernel
+
+/-- the same for `x.square()` -/
+theorem square_post_le32p :
+    itvsLe Dalek.Gen.Norm.IfmaField.square_post IfmaField.pre_negate_lazy = true ∧
+    itvsLe Dalek.Gen.Norm.IfmaField.square_post IfmaField.pre_diff_sum = true := by decide +kernel
+
+/-- ... and consequently, for inputs inside `pre_mul`, the output of `mul` is an admissible input of `negate_lazy` -/
+theorem mul_then_negate_lazy_safe (ins : List Nat) (hin : EnvIn ins IfmaField.pre_mul) :
+    ∃ prod outs, Dalek.Gen.IfmaField.mul.evalC ins = some prod ∧ Dalek.Gen.IfmaField.mul.evalW ins = prod ∧
+      Dalek.Gen.IfmaField.negate_lazy.evalC prod = some outs ∧ Dalek.Gen.IfmaField.negate_lazy.evalW prod = outs := by
+  obtain ⟨prod, h1, h2, h3⟩ := mul_safe ins hin
+  obtain ⟨outs, g1, g2, _⟩ := negate_lazy_safe prod (EnvIn_of_itvsLe h3 mul_post_le32p.1)
+  exact ⟨prod, outs, h1, h2, g1, g2⟩
+
+/-- the exact range of the outputs of `F51x4Reduced::from` (the only way to make an `F51x4Reduced` from arbitrary
+lanes): limb-0 lanes `≤ 2^51 − 1 + 19 (2^13 − 1)`, the other lanes `≤ 2^51 − 1 + (2^13 − 1)` -/
+def reduceRange : List Itv :=
+  rep 4 (ub (2 ^ 51 - 1 + 19 * (2 ^ 13 - 1))) ++ rep 16 (ub (2 ^ 51 - 1 + (2 ^ 13 - 1)))
+
+/-- `reduceRange` IS the analysed post-condition of `reduce` on any twenty u64 lanes -/
+theorem reduce_post_eq_reduceRange : Dalek.Gen.Norm.IfmaField.reduce_post = reduceRange := by decide +kernel
+
+/-- **The defect fixed by /repo commit c662d20** (`negate_lazy` now subtracts from `32p` instead of `16p`).
+Witness, element A only (IFMA lane order `4 i + j`; elements B, C, D are 0):
+`x = [2^51 + 155627, 2^51 + 1, 2^51 + 1, 2^51 + 1, 1005830831932087]`,
+`y = [2^51 + 155613, 2^51 − 1, 2^51 − 1, 2^51 − 1, 1591960409831878]`.
+* Both operands are REACHABLE values of the type `F51x4Reduced`: they are the outputs of `reduce`
+  (`F51x4Reduced::from`) on the u64 vectors `xin`, `yin` below, hence inside `reduceRange` (and inside `pre_mul`).
+* No lane wraps in `&x * &y` (`evalC = some (evalW …)`), and the limb-4 word of element A of the product is
+  `36028797018991902 = (2^55 − 16) + 27950`, LARGER than the limb `2^55 − 16 = 36028797018963952` of `16p`: the product
+  is not `≤ 16p` lane-wise (`le16p`), so with the OLD constants the lane subtraction `16p − z` of `negate_lazy` wraps on
+  this input -- the checked semantics of that `sub` fails (last conjunct), and the wrapping (real SIMD) semantics returns
+  a word that is off by `2^64`, i.e. a wrong `(x*y).negate_lazy()`.
+* With the NEW constants (`32p`) the product is inside `pre_negate_lazy`.
+(The witness handed over with the fix, `y_0 = 2^51 + 155641`, lies 13 above the exact maximum `2^51 − 1 + 19·8191` of a
+`reduce` output; the one used here was found by search inside the exact range.) -/
+theorem mul_output_can_exceed_16p :
+    let xin : List Nat := [6755399441055742, 0, 0, 0, 6755399441055743, 0, 0, 0, 6755399441055743, 0, 0, 0,
+      2251799813685247, 0, 0, 0, 18445498104727798455, 0, 0, 0]
+    let yin : List Nat := [2251799813685232, 0, 0, 0, 2251799813685247, 0, 0, 0, 2251799813685247, 0, 0, 0,
+      2251799813685247, 0, 0, 0, 18446084234305698246, 0, 0, 0]
+    let x : List Nat := [2251799813840875, 0, 0, 0, 2251799813685249, 0, 0, 0, 2251799813685249, 0, 0, 0,
+      2251799813685249, 0, 0, 0, 1005830831932087, 0, 0, 0]
+    let y : List Nat := [2251799813840861, 0, 0, 0, 2251799813685247, 0, 0, 0, 2251799813685247, 0, 0, 0,
+      2251799813685247, 0, 0, 0, 1591960409831878, 0, 0, 0]
+    let prod := Dalek.Gen.IfmaField.mul.evalW (x ++ y)
+    Dalek.Gen.IfmaField.reduce.evalC xin = some x ∧ Dalek.Gen.IfmaField.reduce.evalC yin = some y ∧
+    EnvIn (x ++ y) (reduceRange ++ reduceRange) ∧ EnvIn (x ++ y) IfmaField.pre_mul ∧
+    Dalek.Gen.IfmaField.mul.evalC (x ++ y) = some prod ∧
+    prod.getD 16 0 = 36028797018991902 ∧ prod.getD 16 0 > 36028797018963952 ∧
+    ¬ EnvIn prod IfmaField.le16p ∧ EnvIn prod IfmaField.pre_negate_lazy ∧
+    (E.sub 64 (.c 36028797018963952) (.v 16)).evalC prod = none := by
   decide +kernel
 
 /-! Non-vacuity: the all-lanes-at-the-bound inputs are inside the contracts. -/
